@@ -206,7 +206,9 @@ var groupQuery = map[string]string{"qn": `name = "bob"`, "qf": `f1 != ""`, "qu":
 	"qc": `created_on > 2018-01-01`}
 
 // groups whose query the specification evaluates itself (ContactTrace!RefMatch) instead of trusting the real evaluator
-var groupRef = map[string][2]string{"qx": {"nottel", "+12065550002"}}
+// ("dayafter": created_on falls on a later calendar day than the argument - decided from day numbers that Go's time package
+// gives for the contact's created_on in the evaluating zone, not by the evaluator)
+var groupRef = map[string][2]string{"qx": {"nottel", "+12065550002"}, "qc": {"dayafter", "2018-01-01"}}
 var groupName = map[string]string{}
 
 func init() {
@@ -490,6 +492,9 @@ type QG struct {
 	MatchesBase bool   `json:"matches_base"` // the same in the session's own environment (without the contact's timezone / language)
 	Ref         string `json:"ref"`          // "" or the kind of query the specification evaluates itself
 	Arg         string `json:"arg"`
+	CDay        int    `json:"cday"`     // ref "dayafter": civil day number of the contact's created_on in the merged environment's zone
+	CDayBase    int    `json:"cdaybase"` // ... in the session's own zone
+	QDay        int    `json:"qday"`     // ... of the argument
 }
 
 func queryGroups(env envs.Environment, sa flows.SessionAssets, c *flows.Contact) []QG {
@@ -520,6 +525,13 @@ func queryGroups2(env, base envs.Environment, sa flows.SessionAssets, c *flows.C
 			}
 			if r, ok := groupRef[groupName[string(g.UUID())]]; ok && g.Query() == groupQuery[groupName[string(g.UUID())]] {
 				qg.Ref, qg.Arg = r[0], r[1]
+				if r[0] == "dayafter" {
+					if qd, err := time.Parse("2006-01-02", r[1]); err == nil {
+						qg.QDay = civilDay(qd)
+						qg.CDay = civilDay(c.CreatedOn().In(env.Timezone()))
+						qg.CDayBase = civilDay(c.CreatedOn().In(base.Timezone()))
+					}
+				}
 			}
 			out = append(out, qg)
 		}
